@@ -38,8 +38,8 @@ META = dict(
 )
 
 ATOM = dict(A=5, B=7, C=11, D=13, Z=17)
-KIN = [31, 37, 41, 43, 47, 53, 59, 61, 67, 71, 73, 79]  # value of constant j when it is inlined
-KFREE = [83, 89, 97, 101, 103, 107, 109, 113, 127, 131, 179, 181]  # value bound to the free parameter 'k<j>'
+KIN = [31, 37, 41, 43, 47, 53, 59, 61, 67, 71, 73, 79, 149]  # value of constant j when it is inlined
+KFREE = [83, 89, 97, 101, 103, 107, 109, 113, 127, 131, 179, 181, 151]  # value bound to the free parameter 'k<j>'
 SUBV, SUBV2 = 211, 239  # numeric substitutions for rate constants
 AVAL, A1FREE, TVAL = 223, 227, 229  # Expr substitution k := a*T
 FRFREE, FRSUB = 137, 233
@@ -53,6 +53,7 @@ POOL = [
     M.rt_make({"A": 1, "C": 1}, {"B": 1, "C": 1}),  # catalyst
     M.rt_make({"C": 1}, {"A": 2}, ip={"A": 1}),  # C -> 3 A
     M.rt_make({"A": 1, "B": 1}, {"B": 2}),  # autocatalysis
+    M.rt_make({"A": 1}, {"B": 1}, ip={"C": 1}),  # A -> B + (C): C occurs in this reaction only as an inactive product
     M.rt_make({"A": 1}, {"B": 1}),  # same stoichiometry as 0, own constant
     M.rt_make({"B": 2}, {"A": 1, "C": 1}),
     M.rt_make({"B": 1}, {"C": 1}, ir={"C": 1}),  # C inactive reactant and product
@@ -68,8 +69,8 @@ ORDERS = ["sorted", "unsorted", "extra"]
 def _tier(tier):
     # single-reaction systems always get the full configuration product (maxdev 6, including the trivially refused combinations)
     if tier == "quick":
-        return dict(pool=7, L=3, maxdev=3)
-    return dict(pool=12, L=3, maxdev=6)
+        return dict(pool=8, L=3, maxdev=3)
+    return dict(pool=13, L=3, maxdev=6)
 
 
 def bounds(tier):
@@ -110,6 +111,7 @@ def chunks(tier):
     n = t["pool"]
     out = [("L1", i) for i in range(len(POOL))]
     out += [("L", i, j) for i in range(n) for j in range(n) if i != j]  # lists starting i, j
+    out += [("H", i) for i in range(len(POOL))]
     return out
 
 
@@ -401,9 +403,75 @@ def check_pair(res, cfg, idxs, rts):
     return ok
 
 
+def check_rebuild(res, builder, style, idxs):
+    """build, re-assign the rate constant of the first reaction on the live Reaction object, build again: the second
+    system must be the kinetic model with the NEW constant (a builder must not answer from a stale cache)"""
+    import sympy
+    from chempy import Reaction, ReactionSystem
+    from chempy.kinetics.ode import get_odesys, _create_odesys
+
+    rts = [POOL[i] for i in idxs]
+    names = sorted({k for rt in rts for k in M.rt_keys(rt)})
+    case = dict(layer="H", builder=builder, style=style, idxs=list(idxs))
+    res.states += 1
+    res.transitions += 2
+    res.nontrivial += 1
+    conc = {"A": 5, "B": 7, "C": 11}
+    kvals = {}
+
+    def par(j, gen):
+        if style == "num":
+            v = KIN[j] + 1000 * gen
+            return v, v
+        nm = _kname(j) + ("x" if gen else "")
+        kvals[nm] = 101 + 2 * j + 40 * gen
+        return nm, kvals[nm]
+
+    try:
+        rxns, ks = [], []
+        for j, rt in zip(idxs, rts):
+            reac, prod, ir, ip = M.rt_dicts(rt)
+            p, v = par(j, 0)
+            ks.append(v)
+            rxns.append(Reaction(reac, prod, p, inact_reac=ir or None, inact_prod=ip or None))
+        rsys = ReactionSystem(rxns, names)
+        for gen in (0, 1):
+            if gen == 1:
+                p, v = par(idxs[0], 1)
+                rxns[0].param = p
+                ks[0] = v
+            odesys = (get_odesys(rsys, include_params=(style == "num")) if builder == "get" else _create_odesys(rsys))[0]
+            res.evaluations += 1
+            bind = {d: conc[n] for d, n in zip(odesys.dep, odesys.names)}
+            for sym, pn in zip(odesys.params, odesys.param_names):
+                bind[sym] = kvals.get(pn, sympy.Symbol("UNBOUND_" + str(pn)))
+            got = [sympy.sympify(e).subs(bind) for e in odesys.exprs]
+            model = M.system_rates(rts, ks, conc, list(odesys.names))
+            exp = [model[n] for n in odesys.names]
+            if [sympy.sympify(g) - e for g, e in zip(got, exp)] != [0] * len(exp):
+                res.outcomes["rebuild-STALE" if gen else "rebuild-first-WRONG"] += 1
+                res.violation("C04|%s|rebuild-after-param-reassignment|%s" % ("get_odesys" if builder == "get" else "_create_odesys", "second build uses the old constant" if gen else "first build wrong"),
+                              "%s style=%s on %s: build #%d gives %r bound by name, model with the current constants %r" % (builder, style, sys_str(idxs, rts), gen + 1, [str(g) for g in got], [str(e) for e in exp]), case, [str(g) for g in got], [str(e) for e in exp])
+                return
+        res.outcomes["rebuild-ok"] += 1
+    except Exception as e:
+        res.outcomes["rebuild-raises:%s" % type(e).__name__] += 1
+        res.violation("C04|%s|rebuild-after-param-reassignment|raises" % builder, "%s style=%s on %s raised %s: %s" % (builder, style, sys_str(idxs, rts), type(e).__name__, e), case, "EXC %s" % type(e).__name__, None)
+
+
 def run_chunk(chunk, tier):
     res = Result()
     t = _tier(tier)
+    if chunk[0] == "H":
+        i = chunk[1]
+        for idxs in [(i,), (i, (i + 1) % len(POOL)), ((i + 2) % len(POOL), i)]:
+            for builder in ("get", "create"):
+                for style in ("num", "named"):
+                    if builder == "create" and style == "num":
+                        continue
+                    check_rebuild(res, builder, style, idxs)
+        res.sample(dict(layer="H", first=sys_str((i,), [POOL[i]])))
+        return res
     cfgs = configs(t["maxdev"])
     n, L = t["pool"], t["L"]
     if chunk[0] == "L1":
@@ -427,6 +495,12 @@ def run_chunk(chunk, tier):
 
 def replay(case):
     res = Result()
+    if case.get("layer") == "H":
+        check_rebuild(res, case["builder"], case["style"], tuple(case["idxs"]))
+        if res.violations:
+            v = res.violations[0]
+            return dict(key=v["key"], what=v["what"], observed=v["observed"], expected=v["expected"])
+        return None
     check_pair(res, case["cfg"], case["idxs"], [M.rt_from_json(x) for x in case["rts"]])
     want = case.get("expect_key")
     for v in res.violations:
